@@ -206,6 +206,19 @@ def real_load_entry(schema, path, overrides=(), entry="abs", main_rel="main.conf
                 # an open file object with the plain path name given as its URL (relative references are then joined to a path)
                 with open(arg, encoding="utf-8", newline="") as f:
                     cfg, handler = ZConfig.loadConfigFile(schema, f, path, overrides=list(overrides))
+            elif entry == "fileobj-copy-url":
+                # an open file object whose own name is elsewhere (a scratch copy of the main text in an otherwise empty
+                # directory) together with the URL of the real location: relative references follow the URL that was given
+                import shutil
+                import tempfile
+                cd = tempfile.mkdtemp(prefix="zcv-copy-", dir="/dev/shm" if os.path.isdir("/dev/shm") else None)
+                try:
+                    cp = os.path.join(cd, os.path.basename(path))
+                    shutil.copyfile(path, cp)
+                    with open(cp, encoding="utf-8", newline="") as f:
+                        cfg, handler = ZConfig.loadConfigFile(schema, f, "file://" + urllib.request.pathname2url(path), overrides=list(overrides))
+                finally:
+                    shutil.rmtree(cd, ignore_errors=True)
             elif entry.startswith("fileobj"):
                 with open(arg, encoding="utf-8", newline="") as f:
                     cfg, handler = ZConfig.loadConfigFile(schema, f, overrides=list(overrides))
